@@ -142,6 +142,9 @@ class BoundIO:
         if len(self.buf) + blen > self.maxbytes:
             self.buf = self.buf[blen:]
         self.buf += b
+        if len(self.buf) > self.maxbytes:
+            # a single write larger than maxbytes: keep only the newest data
+            self.buf = self.buf[len(self.buf) - self.maxbytes:]
 
     def getvalue(self):
         return self.buf
